@@ -719,6 +719,9 @@ pub struct Gen<'a> {
     pub stats: GenStats,
     /// Shuffle functions generated so far: (index, parameter type, returns Option).
     shuffles: Vec<(usize, Ty, bool)>,
+    /// Wrapper functions generated so far: (index, scalar parameter types, return type).
+    wrappers: Vec<(usize, Vec<Ty>, Ty)>,
+    force_wrapper: bool,
 }
 
 #[derive(Default, Clone, Debug)]
@@ -735,6 +738,8 @@ pub struct GenStats {
     pub recursion: u32,
     pub early_return: u32,
     pub shuffle_functions: u32,
+    pub wrappers: u32,
+    pub dispatchers: u32,
 }
 
 const INT_TYS: &[Ty] = &[
@@ -1468,6 +1473,83 @@ impl<'a> Gen<'a> {
         }
     }
 
+    /// A small wrapper around function `idx`: it takes two scalars and calls `idx` with an
+    /// aggregate argument that is constant except for those two members (and constants for the
+    /// other parameters). Called from the entry function with literals, this is the shape that
+    /// function specialisation (partially constant aggregate, then fully constant after inlining
+    /// the wrapper) works on.
+    fn maybe_wrapper(&mut self, idx: usize) -> Option<Func> {
+        let forced = std::mem::take(&mut self.force_wrapper);
+        if !forced && !self.ch.chance(1, 3) {
+            return None;
+        }
+        let f = self.prog.funcs[idx].clone();
+        if f.recursive || !f.params.iter().all(|p| matches!(p, Param::Val(..))) {
+            return None;
+        }
+        let members = |t: &Ty, prog: &Program| -> Option<Vec<Ty>> {
+            match t {
+                Ty::Tuple(ts) if ts.len() >= 2 && ts.iter().all(|x| x.is_scalar()) => Some(ts.clone()),
+                Ty::Struct(s) if prog.structs[*s].len() >= 2 && prog.structs[*s].iter().all(|x| x.is_scalar()) => Some(prog.structs[*s].clone()),
+                _ => None,
+            }
+        };
+        let (j, ms) = f.params.iter().enumerate().find_map(|(j, p)| match p {
+            Param::Val(_, t) => members(t, &self.prog).map(|m| (j, m)),
+            _ => None,
+        })?;
+        // Two member positions, of the same type when there are such.
+        let mut pair = if forced { (1usize, 2usize) } else { (0usize, 1usize) };
+        'o: for a in 0..(if forced { 0 } else { ms.len() }) {
+            for b in a + 1..ms.len() {
+                if ms[a] == ms[b] {
+                    pair = (a, b);
+                    break 'o;
+                }
+            }
+        }
+        let (na, nb) = (self.fresh("x"), self.fresh("x"));
+        let empty = Env::default();
+        let mut args = vec![];
+        for (k, p) in f.params.iter().enumerate() {
+            let Param::Val(_, t) = p else { return None };
+            if k == j {
+                let parts: Vec<Expr> = ms
+                    .iter()
+                    .enumerate()
+                    .map(|(m, mt)| {
+                        if m == pair.0 {
+                            Expr::Var(na.clone())
+                        } else if m == pair.1 {
+                            Expr::Var(nb.clone())
+                        } else if forced {
+                            // The selector of a dispatcher.
+                            Expr::Lit(mt.clone(), BigInt::from(self.ch.below(3)))
+                        } else {
+                            Expr::Lit(mt.clone(), self.small_value(mt))
+                        }
+                    })
+                    .collect();
+                args.push(Arg::Val(match t {
+                    Ty::Struct(s) => Expr::StructLit(*s, parts),
+                    _ => Expr::Tuple(parts),
+                }));
+            } else {
+                args.push(Arg::Val(self.expr(&empty, t, 0)));
+            }
+        }
+        let widx = self.prog.funcs.len();
+        self.wrappers.push((widx, vec![ms[pair.0].clone(), ms[pair.1].clone()], f.ret.clone()));
+        self.stats.wrappers += 1;
+        Some(Func {
+            params: vec![Param::Val(na, ms[pair.0].clone()), Param::Val(nb, ms[pair.1].clone())],
+            ret: f.ret.clone(),
+            body: Block { stmts: vec![], tail: Expr::Call(idx, args) },
+            inline: 0,
+            recursive: false,
+        })
+    }
+
     fn func(&mut self, idx: usize, is_entry: bool) -> Func {
         self.cur_fn = idx;
         let mut env = Env::default();
@@ -1503,6 +1585,30 @@ impl<'a> Gen<'a> {
                     params.push(Param::Span(n, t));
                 }
             }
+        }
+        // Dispatcher functions: a tuple parameter whose first member selects one of three sizeable
+        // branches that use the other two members - what function specialisation is made for. A
+        // wrapper (see `maybe_wrapper`) always follows.
+        if !is_entry && !recursive && self.ch.chance(1, 6) {
+            let t = INT_TYS[self.ch.below(INT_TYS.len())].clone();
+            let cfg_ty = Ty::Tuple(vec![Ty::U(8), t.clone(), t.clone()]);
+            let (cfg, x) = (self.fresh("x"), self.fresh("x"));
+            let mut env = Env::default();
+            env.vars.push(VarInfo { name: cfg.clone(), ty: cfg_ty.clone(), mutable: false });
+            env.vars.push(VarInfo { name: x.clone(), ty: t.clone(), mutable: false });
+            let ret = self.scalar_ty();
+            self.cur_ret = ret.clone();
+            let sel = |k: u32| {
+                Expr::Cmp(CmpOp::Eq, Ty::U(8), Box::new(Expr::TupleField(Box::new(Expr::Var(cfg.clone())), 0, 3)), Box::new(Expr::Lit(Ty::U(8), BigInt::from(k))))
+            };
+            let b1 = self.block(&env, &ret, 3);
+            let b2 = self.block(&env, &ret, 3);
+            let b3 = self.block(&env, &ret, 3);
+            let inner = Expr::If(Box::new(sel(0)), Box::new(b2), Box::new(b3));
+            let tail = Expr::If(Box::new(sel(1)), Box::new(b1), Box::new(Block { stmts: vec![], tail: inner }));
+            self.force_wrapper = true;
+            self.stats.dispatchers += 1;
+            return Func { params: vec![Param::Val(cfg, cfg_ty), Param::Val(x, t)], ret, body: Block { stmts: vec![], tail }, inline: 0, recursive: false };
         }
         // Shuffle functions: the body only rebuilds the (single, composite) parameter from its own
         // members, permuted or duplicated - the shape return / struct optimisations look for.
@@ -1650,6 +1756,20 @@ impl<'a> Gen<'a> {
                         }
                     }
                 }
+                // Every wrapper is called once with two distinct literals.
+                for (widx, tys, ret) in self.wrappers.clone() {
+                    let v0 = self.small_value(&tys[0]);
+                    let mut v1 = self.small_value(&tys[1]);
+                    if tys[0] == tys[1] && v0 == v1 {
+                        v1 = if tys[1] == Ty::Bool { BigInt::one() - v1 } else { v1 + 1 };
+                    }
+                    let call = Expr::Call(widx, vec![Arg::Val(Expr::Lit(tys[0].clone(), v0)), Arg::Val(Expr::Lit(tys[1].clone(), v1))]);
+                    let name = self.fresh("wr");
+                    stmts.push(Stmt::Let(name.clone(), false, ret.clone(), call));
+                    if ret.is_scalar() {
+                        e2.vars.push(VarInfo { name, ty: ret, mutable: false });
+                    }
+                }
                 // Observability: the entry also returns a felt252 digest of every scalar variable
                 // in scope, so that intermediate computations reach the result.
                 let mut digest = Expr::Lit(Ty::Felt, BigInt::zero());
@@ -1711,6 +1831,8 @@ pub fn generate(ch: &mut Choices) -> (Program, GenStats) {
         in_loop: false,
         stats: GenStats::default(),
         shuffles: vec![],
+        wrappers: vec![],
+        force_wrapper: false,
     };
     // Types.
     let ns = g.ch.below(3);
@@ -1732,11 +1854,18 @@ pub fn generate(ch: &mut Choices) -> (Program, GenStats) {
         g.prog.consts.push((t, v));
     }
     let nf = 2 + g.ch.below(4);
-    for i in 0..nf {
-        let f = g.func(i, i == nf - 1);
+    for k in 0..nf {
+        let is_entry = k == nf - 1;
+        let idx = g.prog.funcs.len();
+        let f = g.func(idx, is_entry);
         g.prog.funcs.push(f);
+        if !is_entry {
+            if let Some(w) = g.maybe_wrapper(idx) {
+                g.prog.funcs.push(w);
+            }
+        }
     }
-    g.prog.entry = nf - 1;
+    g.prog.entry = g.prog.funcs.len() - 1;
     let stats = g.stats.clone();
     (g.prog, stats)
 }
